@@ -108,6 +108,56 @@ def r3_no_wire_without_session(ctx):
     C09.r3_purge(ctx)
 
 
+def _honours_cursor(ctx, rl):
+    """The draining re-emitter skips the events the send cursor has already consumed: what it re-emits is the drain of the buffer,
+    `skip`ped by a count that depends on `EventCursor::len(reader, events)` of the same buffer, with the reader being the resource
+    registered under `reader_id` of the same event."""
+    F = ctx.F
+    calls = list(rl.calls())
+    drains = [bb for bb, t in calls if callee_decl(t).endswith("Events::<E>::drain")]
+    lens = [bb for bb, t in calls if callee_decl(t).endswith("EventCursor::<E>::len")]
+    skips = [(bb, t) for bb, t in calls if callee_decl(t).endswith("Iterator::skip")]
+    emits = [(bb, t) for bb, t in calls if callee_decl(t).endswith("::send_batch") or callee_decl(t).endswith("Events::<E>::send")]
+    if not drains or not lens or not skips or not emits:
+        return False, "no drain/len/skip/emit chain (%d/%d/%d/%d)" % (len(drains), len(lens), len(skips), len(emits))
+    tr = tracer(rl)
+    for sb, st in skips:
+        src = dep_closure(rl, st["args"][0])
+        cnt = dep_closure(rl, st["args"][1])
+        if not any(("call", d) in src for d in drains):
+            continue
+        if not any(("call", l) in cnt for l in lens):
+            continue
+        # the cursor is asked about the buffer that is drained, and is the reader parameter
+        ok_len = False
+        for l in lens:
+            lt = rl.blocks[l].term
+            recv = dep_closure(rl, lt["args"][0])
+            buf = dep_closure(rl, lt["args"][1])
+            dbuf = set()
+            for d in drains:
+                dbuf |= dep_closure(rl, rl.blocks[d].term["args"][0])
+            params_recv = {x for (k, x) in recv if k == "param"}
+            params_buf = {x for (k, x) in buf if k == "param"}
+            params_drain = {x for (k, x) in dbuf if k == "param"}
+            if params_buf and params_buf == params_drain and params_recv and not (params_recv & params_buf):
+                ok_len = True
+        if not ok_len:
+            return False, "the cursor is not asked about the drained buffer"
+        if not all(any(("call", sb) in dep_closure(rl, a) for a in et["args"][1:]) for _, et in emits):
+            return False, "what is re-emitted does not come from the skipped drain"
+        # the system hands over the reader registered for the same event
+        sysb = ctx.fn("client::event::resend_locally")
+        for bb, t in sysb.calls():
+            if callee_decl(t).endswith("ClientEvent::resend_locally") and len(t["args"]) >= 4:
+                deps = dep_closure(sysb, t["args"][3])
+                if any(k == "call" and callee_decl(sysb.blocks[d].term).endswith("ClientEvent::reader_id") for (k, d) in deps):
+                    return True, ""
+                return False, "the system does not pass the resource registered under reader_id"
+        return False, "the resend system does not pass a reader"
+    return False, "the re-emitted drain is not skipped by a cursor-derived count"
+
+
 def r4_hand_over(ctx):
     F = ctx.F
     S = schedule(F)
@@ -147,12 +197,14 @@ def r4_hand_over(ctx):
     leave_covered = any("client_just_disconnected" in c for c in covered.values())
     # the draining re-emitter ignores the cursor?
     rl = ctx.fn("client_event::ClientEvent::resend_locally_typed")
-    honours_cursor = any("EventCursor" in callee_decl(t) for _, t in rl.calls())
+    honours_cursor, why_not = _honours_cursor(ctx, rl)
     ctx.check(leave_covered or honours_cursor, "ClientEvent::events_id/Connected->Disconnected", "",
               "client events are read without draining while connected (%s) and drained for local re-emission when not connected (%s); nothing drains the buffer on the "
               "edge Connected->Disconnected (drainers run under %s) and the re-emitter ignores the send cursor: an event already sent to the remote server is handled "
               "again locally when the client disconnects within the buffer's two-frame lifetime" % (sorted(p), sorted(_cond_names(drainers[-1])), {short(k): sorted(v) for k, v in covered.items()}),
-              "edge covered")
+              "edge covered: %s" % ("a drainer runs on client_just_disconnected" if leave_covered else "the re-emitter skips what the send cursor already consumed"))
+    if not leave_covered and not honours_cursor:
+        ctx.note("cursor check: %s" % why_not)
     enter_covered = any("client_just_connected" in c for c in covered.values())
     ctx.check(enter_covered, "ClientEvent::events_id/ ->Connected", "", "events emitted before connecting are not dropped on connect (they would be sent to the new server)")
     # --- server direction: Events<ToClients<E>>: fresh cursor reader + same-frame drain
